@@ -28,6 +28,7 @@ func runC12(c *Ctx) {
 	defer c12IllegalChar(c)
 	defer c12OffsetScan(c)
 	tokenStorageFresh(c, "R10")
+	defer c.shared("R11", "C13/R3", "line N of an error is line N of the program: the lexer scans the text it was given, unchanged (not a trimmed or normalised copy whose offsets differ)", keyHas("lexer-source-unmodified"), runC13)
 	defer c.shared("R9", "C01/R1", "every runtime error carries a position: the errors that leave the interpreter's entry points are SyntaxError / RuntimeError / JsonError values only — a raw error (an unwrapped `unknown variable`) has no line at all", keyHas("entry "), func(s *Ctx) { c01R1(s, scopeAgreement(s, "R2")) })
 	defer c12LineColArithmetic(c)
 	p := c.P
